@@ -1,5 +1,105 @@
 import MevCommit.Model.Semver
 import MevCommit.Spec.C16
+import MevCommit.Lemmas.Decimal
+import MevCommit.Lemmas.Split
+import MevCommit.Extracted
+/-
+C16 — property theorems.  Model: `Semver.matchProto` (transcription of
+matchProtocolIDWithSemver); spec: `Spec.C16.rule`.
+-/
 open MevCommit MevCommit.Semver
 
-theorem C16_placeholder : matchProto [] [] [] = .noMatchErr := by decide
+/-- what the node does with a decision: route the stream or not -/
+def C16_matched : Decision → Bool
+  | .decided b => b
+  | _ => false
+
+private theorem parseComponent_showDec (n : Nat) (h : n < 2^64) :
+    parseComponent (showDec n) = some n := by
+  simp [parseComponent, parseDec_showDec, h]
+
+private theorem dot_not_mem (n : Nat) : (46 : UInt8) ∉ showDec n :=
+  not_mem_showDec n 46 (by decide)
+private theorem slash_not_mem (n : Nat) : (47 : UInt8) ∉ showDec n :=
+  not_mem_showDec n 47 (by decide)
+
+private theorem parseStrict_showVersion (v : Version)
+    (h1 : v.major < 2^64) (h2 : v.minor < 2^64) (h3 : v.patch < 2^64) :
+    parseStrict (showVersion v) = some v := by
+  unfold parseStrict showVersion
+  rw [splitOn_append_sep 46 _ _ (dot_not_mem _), splitOn_append_sep 46 _ _ (dot_not_mem _),
+    splitOn_no_sep 46 _ (dot_not_mem _)]
+  simp [parseComponent_showDec, h1, h2, h3]
+
+private theorem slash_not_mem_version (v : Version) : (47 : UInt8) ∉ showVersion v := by
+  unfold showVersion
+  simp only [List.mem_append, List.mem_cons, not_or]
+  exact ⟨slash_not_mem _, by decide, slash_not_mem _, by decide, slash_not_mem _⟩
+
+/-- **Routing rule.**  For every name without '/', and all 64-bit MAJOR.MINOR.PATCH on both
+sides, the identifier "/iname/M.m.p" is matched by handler (hname, "M'.m'.p'") exactly when
+iname = hname ∧ M = M' ∧ m ≤ m'. -/
+theorem C16_routing_rule (iname hname : Bytes) (iv hv : Version)
+    (hn : (47 : UInt8) ∉ iname)
+    (hi : iv.major < 2^64 ∧ iv.minor < 2^64 ∧ iv.patch < 2^64)
+    (hh : hv.major < 2^64 ∧ hv.minor < 2^64 ∧ hv.patch < 2^64) :
+    C16_matched (matchProto (protoId iname (showVersion iv)) hname (showVersion hv))
+      = Spec.C16.rule iname hname iv hv := by
+  unfold matchProto protoId
+  have h0 : splitOn 47 (47 :: (iname ++ 47 :: showVersion iv)) = [[], iname, showVersion iv] := by
+    have := splitOn_append_sep 47 [] (iname ++ 47 :: showVersion iv) (by simp)
+    simp only [List.nil_append] at this
+    rw [this, splitOn_append_sep 47 _ _ hn, splitOn_no_sep 47 _ (slash_not_mem_version iv)]
+  rw [h0]
+  simp only
+  by_cases hname_eq : iname = hname
+  · subst hname_eq
+    simp only [ne_eq, not_true_eq_false, ite_false]
+    rw [parseStrict_showVersion hv hh.1 hh.2.1 hh.2.2, parseStrict_showVersion iv hi.1 hi.2.1 hi.2.2]
+    simp only [C16_matched, Spec.C16.rule, beq_self_eq_true, Bool.true_and]
+    cases h : (hv.major == iv.major) <;> cases h' : (iv.major == hv.major) <;> simp_all
+  · simp [hname_eq, C16_matched, Spec.C16.rule]
+
+/-- the observation the spec accepts is exactly the model's (no panic, rule-conformant match) -/
+theorem C16_spec_on_model (iname hname : Bytes) (iv hv : Version)
+    (hn : (47 : UInt8) ∉ iname)
+    (hi : iv.major < 2^64 ∧ iv.minor < 2^64 ∧ iv.patch < 2^64)
+    (hh : hv.major < 2^64 ∧ hv.minor < 2^64 ∧ hv.patch < 2^64) :
+    Spec.C16.ok iname hname iv hv false
+      (C16_matched (matchProto (protoId iname (showVersion iv)) hname (showVersion hv))) = true := by
+  simp [Spec.C16.ok, C16_routing_rule iname hname iv hv hn hi hh]
+
+/-- **Other shapes never match.**  An identifier whose number of '/'-separated segments is
+not three, or whose name segment differs from the handler's, is never routed — whatever the
+version texts are (including the lenient spellings outside the claim). -/
+theorem C16_other_shapes_never_match (incoming hname version : Bytes)
+    (h : ∀ a b c, splitOn 47 incoming = [a, b, c] → b ≠ hname) :
+    C16_matched (matchProto incoming hname version) = false := by
+  unfold matchProto
+  split
+  · rename_i a b c heq
+    have := h a b c heq
+    simp [this, C16_matched]
+  · simp [C16_matched]
+
+theorem C16_spec_raw_on_model (incoming hname version : Bytes) :
+    Spec.C16.okRaw incoming hname false (C16_matched (matchProto incoming hname version)) = true := by
+  unfold Spec.C16.okRaw matchProto
+  generalize splitOn 47 incoming = l
+  match l with
+  | [a, b, c] => by_cases hb : b = hname <;> simp [hb, C16_matched]
+  | [] => simp [C16_matched]
+  | [_] => simp [C16_matched]
+  | [_, _] => simp [C16_matched]
+  | _ :: _ :: _ :: _ :: _ => simp [C16_matched]
+
+/-- non-vacuity: a concrete identifier meets the hypotheses and is routed -/
+example : C16_matched (matchProto (protoId Extracted.discoveryProtocolName (showVersion ⟨2, 0, 7⟩))
+    Extracted.discoveryProtocolName (showVersion ⟨2, 1, 0⟩)) = true := by
+  rw [C16_routing_rule _ _ _ _ (by decide) (by decide) (by decide)]; decide
+
+/-- the protocol identifiers the node itself registers are of the claimed form -/
+theorem C16_own_protocols_strict :
+    parseStrict MevCommit.Extracted.preconfProtocolVersion ≠ none ∧
+    parseStrict MevCommit.Extracted.discoveryProtocolVersion ≠ none := by
+  constructor <;> decide
